@@ -9,6 +9,7 @@ import (
 	"strconv"
 	"strings"
 	"sync"
+	"syscall"
 	"testing"
 	"time"
 )
@@ -43,6 +44,7 @@ type Run struct {
 	jmu      sync.Mutex
 	jdesc    string
 	jseq     int64
+	capped   bool
 }
 
 // ReplayFile is what the driver writes per violation.
@@ -106,13 +108,32 @@ func Pick[T any](r *Run, q, t T) T {
 	return q
 }
 
+// realNow reads the wall clock through the system call, so that it also works
+// inside a synctest bubble (where time.Now is virtual).
+func realNow() time.Time {
+	var tv syscall.Timeval
+	if err := syscall.Gettimeofday(&tv); err != nil {
+		return time.Now()
+	}
+	return time.Unix(tv.Sec, tv.Usec*1000)
+}
+
 // Expired reports whether the internal deadline passed.
 func (r *Run) Expired() bool {
-	return !r.deadline.IsZero() && time.Now().After(r.deadline)
+	return !r.deadline.IsZero() && realNow().After(r.deadline)
 }
 
 // Mine deals scenario-level work units round-robin over shards.
 func (r *Run) Mine() bool {
+	if r.Expired() {
+		// internal deadline: the remaining work units are skipped and the run
+		// reports exhaustive=false (never a violation)
+		if !r.capped {
+			r.capped = true
+			r.NotExhaustive("deadline")
+		}
+		return false
+	}
 	k := r.scen
 	r.scen++
 	return r.ShardN <= 1 || int(k%int64(r.ShardN)) == r.ShardI
@@ -216,7 +237,7 @@ func Main(t *testing.T, property string, body func(r *Run)) {
 		r.ShardN = 1
 	}
 	if *flagBudget > 0 {
-		r.deadline = r.start.Add(time.Duration(*flagBudget * float64(time.Second)))
+		r.deadline = realNow().Add(time.Duration(*flagBudget * float64(time.Second)))
 	}
 	if *flagReplay != "" {
 		b, err := os.ReadFile(*flagReplay)
